@@ -482,6 +482,14 @@ func (c *wsClient) drop() {
 	idle()
 }
 
+// closeFrame says goodbye properly: a close frame with a status code; the server echoes it and closes.
+func (c *wsClient) closeFrame(code int) {
+	if c.conn != nil {
+		c.conn.WriteControl(websocket.CloseMessage, websocket.FormatCloseMessage(code, ""), time.Now().Add(time.Second))
+	}
+	idle()
+}
+
 // ---- teardown ---------------------------------------------------------------
 
 func (w *world) teardown() {
